@@ -13,6 +13,26 @@ type sliceAsList struct {
 	ref    *Node
 	src    reflect.Value
 	update NodeListUpdate
+
+	// reads the slice again from the container that owns it. another selection on the
+	// same list may have added or removed items since this one was made
+	current func() (reflect.Value, error)
+}
+
+func (def *sliceAsList) reload() {
+	if def.current == nil {
+		return
+	}
+	v, err := def.current()
+	if err != nil || !v.IsValid() {
+		return
+	}
+	for v.Kind() == reflect.Interface && !v.IsNil() {
+		v = v.Elem()
+	}
+	if v.Kind() == reflect.Slice {
+		def.src = v
+	}
 }
 
 func newSliceAsList(ref *Node, src reflect.Value, u NodeListUpdate) *sliceAsList {
@@ -24,6 +44,7 @@ func newSliceAsList(ref *Node, src reflect.Value, u NodeListUpdate) *sliceAsList
 }
 
 func (def *sliceAsList) getByKey(r node.ListRequest) (reflect.Value, error) {
+	def.reload()
 	if !isKeyValid(r.Key) {
 		return reflect.Value{}, fmt.Errorf("invalid key for %v", r.Path.String())
 	}
@@ -35,6 +56,7 @@ func (def *sliceAsList) getByKey(r node.ListRequest) (reflect.Value, error) {
 }
 
 func (def *sliceAsList) getByRow(r node.ListRequest) (reflect.Value, []reflect.Value, error) {
+	def.reload()
 	var empty reflect.Value
 	if r.Row >= def.src.Len() {
 		return empty, nil, nil
@@ -108,6 +130,7 @@ func (def *sliceAsList) findByKey(m meta.Meta, target []val.Value, keyMeta []met
 }
 
 func (def *sliceAsList) deleteByKey(r node.ListRequest) error {
+	def.reload()
 	if !isKeyValid(r.Key) {
 		return fmt.Errorf("invalid key for %v", r.Path.String())
 	}
@@ -125,6 +148,7 @@ func (def *sliceAsList) deleteByKey(r node.ListRequest) error {
 }
 
 func (def *sliceAsList) newListItem(r node.ListRequest) (reflect.Value, error) {
+	def.reload()
 	var empty reflect.Value
 	item, err := def.ref.NewObject(def.src.Type().Elem(), r.Meta, true)
 	if err != nil {
